@@ -109,6 +109,28 @@ def make_silent(frontend, framing, why):
     return silent
 
 
+def make_after_broadcast(frontend, framing):
+    """a broadcast write (no response) followed by an ordinary request on the same connection: the second is answered"""
+    def after_broadcast(t: bytes, u: int, b1: bytes, b2: bytes, st: bytes) -> bool:
+        assume(len(t) == 4 and len(b1) == 4 and len(b2) == 4 and len(st) == 8)
+        assume(1 <= u <= 247)
+        slave, regs = _ctx(st)
+        ctx = SL.server_context(None, single=False, units=[(u, slave)])
+        f1 = adu.ref_adu(framing, bytes([6]) + b1, 0, t[0:2])
+        f2 = adu.ref_adu(framing, bytes([3]) + b2, u, t[2:4])
+        chunks = [f1, f2]
+        r = SL.drive(frontend, framing, ctx, chunks, broadcast=True)
+        if r.escaped is not None:
+            return False
+        table = (0, regfile.model(6, b1, (0, list(regs)), True)[1])
+        pdu2, _ = regfile.model(3, b2, table, True)
+        if len(r.written) != 1:
+            explain("%d frames written; the broadcast is silent and the following request must be answered once", len(r.written))
+            return False
+        return same(r.written[0], adu.ref_adu(framing, pdu2, u, t[2:4]), "response to the request after the broadcast")
+    return after_broadcast
+
+
 class _Failing(object):
     """a datastore whose every access raises"""
     zero_mode = True
@@ -176,6 +198,9 @@ def obligations(tier):
             out.append(Obl("silent.%s.%s.%s" % (fe, fr, why), make_silent(fe, fr, why), timeout=T, contracts=CONTRACTS[fr], lemmas=LEMMAS[fr],
                            whole_finding="KF-twisted-udp-listen-only-response" if (fe, why) == ("twisted-udp", "listen-only") else None,
                            bounds="%s front-end, %s framing: one request for which no response is due (%s); contents symbolic" % (fe, fr, why)))
+        if fe in ("sync-tcp", "sync-serial", "asyncio-tcp"):
+            out.append(Obl("after-broadcast.%s.%s" % (fe, fr), make_after_broadcast(fe, fr), timeout=T, contracts=CONTRACTS[fr], lemmas=LEMMAS[fr],
+                           bounds="%s front-end with broadcast_enable: a unit-0 write then an FC3 request to the hosted unit on the same connection (two reads); contents symbolic" % fe))
         out.append(Obl("fail.%s.%s" % (fe, fr), make_fail(fe, fr), timeout=T, contracts=CONTRACTS[fr], lemmas=LEMMAS[fr],
                        bounds="%s front-end: FC3 request against a datastore whose every access raises -> exception 04" % fe))
     return out
